@@ -3,12 +3,13 @@ import json
 from gen import common, sysattr
 from gen.sysattr import FIXED, hexn
 
-LEAN_MODULE = "XcmModel.Props.C10"
+LEAN_MODULE = ["XcmModel.Props.C10", "XcmModel.Props.Funcs"]
 THEOREMS = [
     "XcmModel.C10.C10_table_safe", "XcmModel.C10.nodeGet_good", "XcmModel.C10.C10_get_within_capacity",
     "XcmModel.C10.C10_rc_is_written", "XcmModel.C10.C10_typed_within_capacity",
     "XcmModel.C10.C10_overflow_reported", "XcmModel.C10.C10_fits_returned",
     "XcmModel.C10.C10_set_rejects_without_effect", "XcmModel.C10.C10_names_total",
+    "XcmModel.FuncsTie.valid_set_attr_len_tie",
 ]
 
 CAP_APIS = ["get", "get_notype", "getf", "str", "bin", "getf_str", "getf_bin"]
